@@ -180,6 +180,49 @@ Proof.
 Qed.
 Print Assumptions C19_read_header_deadline.
 
+(* "refusing reserved or out-of-range types" on every way a caller can put a message type on the
+   connection: the constructors (newMessage, shared by NewHdrOnlyMsg and NewByteMessage) and the
+   Client's send APIs built on them (SendNoWait of such a message, SendMessage, SendFor), for a
+   client in any state: the message is refused exactly when nothing takes it or the type is above
+   1023 or reserved or the length does not fit ... *)
+Theorem C19_send_refuses : forall (c : cstate) typ len,
+  client_send c typ len = None <->
+  (sendable c = false \/ 1023 < typ \/ 900 <= typ <= 999 \/ 2 ^ 32 - 11 < len).
+Proof. exact client_send_refused_iff. Qed.
+Print Assumptions C19_send_refuses.
+
+(* ... and what is accepted goes out as 10 bytes that decode to exactly that type and length, the
+   version the client holds (1.1 for GetSupportedVersion/SetProtocolVersion) and the next ID;
+   after every connection history *)
+Theorem C19_send_decodes_back : forall v timeout (evs : list cevent) typ len b, v < 8 ->
+  let c := client_run (c_new v timeout) evs in
+  client_send c typ len = Some b ->
+  length b = 10%nat /\
+  hdr_decode b = HOk (mkHdr (if (typ =? 46) || (typ =? 47) then 2 else c_ver c) typ len (c_next_id c)).
+Proof. exact client_send_decodes_history. Qed.
+Print Assumptions C19_send_decodes_back.
+
+(* "encoding is the exact inverse" over a connection that fails inside the header (conn.Write takes
+   k bytes and returns an error, a timeout or not): whatever writeHeader reports, the peer has
+   received a prefix of the header's encoding; all of it whenever success is reported; a failed
+   Write is never reported as success *)
+Theorem C19_write_header_faulty_connection : forall (c : cstate) h (f : wfault),
+  let r := client_write_header_io c h f in
+  (exists rest, client_write_header c h = fst r ++ rest)
+  /\ (snd r = true -> fst r = client_write_header c h)
+  /\ (snd r = true <-> f = WNoFault).
+Proof. exact client_write_header_io_prefix. Qed.
+Print Assumptions C19_write_header_faulty_connection.
+
+(* the same through the write loop: a payload only ever follows a complete header *)
+Theorem C19_send_faulty_connection : forall (c : cstate) typ len (f : wfault) got ok,
+  client_send_io c typ len f = Some (got, ok) ->
+  exists hb, client_send c typ len = Some hb
+    /\ (ok = true -> f = WNoFault /\ got = hb ++ repeat 0 (N.to_nat len))
+    /\ (ok = false -> exists rest, hb = got ++ rest).
+Proof. exact client_send_io_prefix. Qed.
+Print Assumptions C19_send_faulty_connection.
+
 (* ---------------------------------------------------------------- Part 2: tables (generic) *)
 
 (* every message type the library can instantiate reports that same type code *)
@@ -244,9 +287,9 @@ Example C19_example_refused : hdr_encode (mkHdr 1 950 0 0) = None /\ hdr_encode 
 Proof. vm_compute. repeat split; reflexivity. Qed.
 (* connection histories: negotiated 1.1; lowered to 1.0.1; closed while a request is outstanding *)
 Example C19_example_state_negotiated :
-  client_run (c_new 2 false) [EvConn; EvFirst; EvGsv 1 2; EvSpv] = mkC 2 false PReady 0 false false
-  /\ client_run (c_new 2 true) [EvConn; EvFirst; EvGsv 1 1; EvReq; EvClose] = mkC 1 true PReady 1 false true
-  /\ client_run (c_new 2 false) [EvConn; EvFirst; EvGsv 1 2] = mkC 2 false PNegSpv 0 false false.
+  client_run (c_new 2 false) [EvConn; EvFirst; EvGsv 1 2; EvSpv] = mkC 2 false PReady 0 false false 2
+  /\ client_run (c_new 2 true) [EvConn; EvFirst; EvGsv 1 1; EvReq; EvClose] = mkC 1 true PReady 1 false true 2
+  /\ client_run (c_new 2 false) [EvConn; EvFirst; EvGsv 1 2] = mkC 2 false PNegSpv 0 false false 2.
 Proof. vm_compute. repeat split; reflexivity. Qed.
 (* a client that has negotiated 1.1 decodes a KEEPALIVE stamped 1.0.1 (and one stamped 7) as sent *)
 Example C19_example_state_decode :
@@ -257,6 +300,17 @@ Example C19_example_state_decode :
         EvRecv [4; 63; 0; 0; 0; 11; 0; 0; 0; 1; 255]; EvRecv [4; 62; 0; 0; 0; 10; 0; 0; 0; 2]]
      = [HOk (mkHdr 7 62 0 9); HOk (mkHdr 1 63 1 1)].
 Proof. vm_compute. split; reflexivity. Qed.
+(* send paths: KEEPALIVE_ACK from a client that negotiated 1.1 (third message of the connection);
+   reserved and out-of-range types refused; a write that fails after 4 bytes *)
+Example C19_example_send :
+  let c := client_run (c_new 2 false) [EvConn; EvFirst; EvGsv 1 2; EvSpv] in
+  client_send c 72 0 = Some [8; 72; 0; 0; 0; 10; 0; 0; 0; 2]
+  /\ client_send c 950 0 = None /\ client_send c 3073 0 = None /\ client_send c 1024 3 = None
+  /\ client_send_all c [(72, 0); (900, 0); (46, 1)] =
+       [Some [8; 72; 0; 0; 0; 10; 0; 0; 0; 2]; None; Some [8; 46; 0; 0; 0; 11; 0; 0; 0; 3]]
+  /\ client_write_header_io c (mkHdr 1 62 0 7) (WFault 4 true) = ([4; 62; 0; 0], false)
+  /\ client_send_io c 72 2 WNoFault = Some ([8; 72; 0; 0; 0; 12; 0; 0; 0; 2; 0; 0], true).
+Proof. vm_compute. repeat split; reflexivity. Qed.
 (* the version field is not checked by the encoder (not demanded by the property; recorded) *)
 Example C19_note_version_unchecked :
   exists h b, wf_hdr h /\ hdr_encode h = Some b /\ hdr_decode b <> HOk h.
